@@ -26,6 +26,8 @@ import (
 	"github.com/btcsuite/btcd/chaincfg"
 	"github.com/btcsuite/btcd/chaincfg/chainhash"
 	"github.com/ethereum/go-ethereum/common"
+	subListenerR "github.com/ChainSafe/sygma-relayer/chains/substrate/listener"
+	"github.com/centrifuge/go-substrate-rpc-client/v4/registry/parser"
 	"github.com/rs/zerolog"
 	"github.com/rs/zerolog/log"
 	"github.com/ChainSafe/sygma-relayer/chains/evm/executor"
@@ -194,6 +196,20 @@ func init() {
 				continue
 			}
 			seen[renderBtcDeposits(dd)] = true
+			if run == 0 {
+				n := 0
+				for _, ms := range dd {
+					n += len(ms)
+				}
+				ch := make(chan []*message.Message, 64)
+				eh2 := btcListener.NewFungibleTransferEventHandler(zerolog.Context{}, 1, btcListener.NewBtcDepositHandler(),
+					ch, c19BtcConn{mkBtcTxs(a[3])}, mkBtcResources(a[1]), c19Addr(int(u64(a[2]))))
+				if eh2.HandleEvents(bigArg(a[0])) != nil {
+					seen["err"] = true
+				} else {
+					seen[renderBtcDeposits(c19Drain(ch, n))] = true
+				}
+			}
 		}
 		out := []string{}
 		for k := range seen {
@@ -238,6 +254,20 @@ func init() {
 				continue
 			}
 			seen[renderEvmDeposits(dd)] = true
+			if run == 0 { // what HandleEvents puts on the message channel (one send per destination, from goroutines)
+				n := 0
+				for _, ms := range dd {
+					n += len(ms)
+				}
+				ch := make(chan []*message.Message, 64)
+				eh2 := eventHandlers.NewDepositEventHandler(c19EvmListener{deposits: func(s, e *big.Int) []*events.Deposit { return ds }},
+					c19DepositHandler{}, common.Address{}, uint8(u64(a[0])), ch)
+				if eh2.HandleEvents(bigArg(a[1]), bigArg(a[2])) != nil {
+					seen["err"] = true
+				} else {
+					seen[renderEvmDeposits(c19Drain(ch, n))] = true
+				}
+			}
 		}
 		out := []string{}
 		for k := range seen {
@@ -257,12 +287,37 @@ func init() {
 			ri := ri
 			f := strings.Split(a[2+ri], ",")
 			domain := uint8(1)
+			// the REAL deposit event handler of the chain type resolves the fixed fake chain's deposits of every range handed
+			// to handler 0: block b carries one deposit to domain 2 + b%2 (EVM/Substrate: nonce b; BTC: one paying transaction)
 			eh := eventHandlers.NewDepositEventHandler(c19EvmListener{deposits: chainDeposits}, c19DepositHandler{}, common.Address{}, domain, make(chan []*message.Message, 1))
+			sh := subListenerR.NewFungibleTransferEventHandler(zerolog.Context{}, domain, c19SubDepositHandler{}, make(chan []*message.Message, 1),
+				&c19SubConn{events: func(s, e *big.Int) []*parser.Event {
+					out := []*parser.Event{}
+					for _, d := range chainDeposits(s, e) {
+						out = append(out, c19SubDepositEvent(d.DestinationDomainID, d.DepositNonce, false))
+					}
+					return out
+				}})
+			var curBlock int64
+			bh := btcListener.NewFungibleTransferEventHandler(zerolog.Context{}, domain, &btcListener.BtcDepositHandler{}, make(chan []*message.Message, 1),
+				c19BtcChainConn{&curBlock}, mkBtcResources("01:0:100000000"), c19Addr(5))
 			onCall := func(life, idx int, s, e *big.Int) {
-				if idx != 0 || kind == "btc" {
+				if idx != 0 {
 					return
 				}
-				dd, err := eh.ProcessDeposits(s, e)
+				var dd map[uint8][]*message.Message
+				var err error
+				switch kind {
+				case "evm":
+					dd, err = eh.ProcessDeposits(s, e)
+				case "sub":
+					dd, err = sh.ProcessDeposits(s, e)
+				case "btc":
+					if s.Sign() < 0 || !s.IsInt64() {
+						return
+					}
+					dd, err = bh.ProcessDeposits(s)
+				}
 				if err != nil {
 					return
 				}
@@ -271,6 +326,9 @@ func init() {
 				for _, ms := range dd {
 					for _, m := range ms {
 						n := m.Data.(transfer.TransferMessageData).DepositNonce
+						if kind == "btc" {
+							n = s.Uint64() // the BTC nonce is a hash; deposits are keyed by their block here
+						}
 						if ids[ri][n] == nil {
 							ids[ri][n] = map[string]bool{}
 						}
@@ -403,6 +461,23 @@ func (l *c19BlockingListener) FetchDeposits(ctx context.Context, a common.Addres
 	return l.ds, nil
 }
 
+// c19BtcChainConn: block b of the fixed fake chain holds one transaction paying resource 01 (and the fee) for domain 2 + b%2
+type c19BtcChainConn struct{ cur *int64 }
+
+func (c c19BtcChainConn) GetRawTransactionVerbose(*chainhash.Hash) (*btcjson.TxRawResult, error) {
+	return nil, errRPC
+}
+func (c c19BtcChainConn) GetBlockHash(b int64) (*chainhash.Hash, error) {
+	*c.cur = b
+	return &chainhash.Hash{}, nil
+}
+func (c c19BtcChainConn) GetBlockVerboseTx(*chainhash.Hash) (*btcjson.GetBlockVerboseTxResult, error) {
+	txs := mkBtcTxs(itoa64(2+*c.cur%2) + "~0:2:t,5:1:t")
+	txs[0].Hash = fmt.Sprintf("%064x", *c.cur+1)
+	return &btcjson.GetBlockVerboseTxResult{Tx: txs}, nil
+}
+func (c c19BtcChainConn) GetBestBlockHash() (*chainhash.Hash, error) { return &chainhash.Hash{}, nil }
+
 func setStr(m map[string]bool) string {
 	xs := []string{}
 	for k := range m {
@@ -454,6 +529,42 @@ func genC19(g *G) {
 			xs = append(xs, []string{"n", "0", "40", "41", "100"}[g.Intn(5)]+":"+st)
 		}
 		g.Emit("evmsession", "100", "60", []string{"1-2-100-104", "3-1-5-9", "retry-7"}[g.Intn(3)], joinOr(xs, ";"))
+	}
+	// message ids of the Substrate handlers (regular + retry) and of the EVM retry handlers, each on three
+	// differently-historied handler objects
+	for i := 0; i < g.Count(150, 3000); i++ {
+		n := g.Intn(6)
+		ds, dsGood := []string{}, []string{}
+		for j := 0; j < n; j++ {
+			d := itoa(2 + g.Intn(3))
+			dsGood = append(dsGood, d)
+			if g.Intn(6) == 0 {
+				d = "x" + d
+			}
+			ds = append(ds, d)
+		}
+		s := int64(g.Intn(1000))
+		e := s + int64(g.Intn(6))
+		dom := itoa(1 + g.Intn(3))
+		g.Emit("subids", dom, itoa64(s), itoa64(e), joinOr(ds, ","))
+		g.Emit("subretryids", dom, itoa64(s), itoa64(e), itoa64(int64(g.Intn(900))), joinOr(ds, ","))
+		g.Emit("evmretry1ids", dom, itoa64(s), itoa64(e), joinOr(dsGood, ","))
+		evs := []string{}
+		for j := 0; j < 1+g.Intn(4); j++ {
+			evs = append(evs, itoa(1+g.Intn(4))+"."+itoa(1+g.Intn(4))+"."+itoa(g.Intn(1000)))
+		}
+		g.Emit("evmretry2ids", dom, itoa64(s), itoa64(e), strings.Join(evs, ","))
+	}
+	// signing session ids of the Substrate and the Bitcoin executor: two relayers, one of them used repeatedly
+	for _, st := range []string{"p", "e", "p,p", "e,p", "p,e", "e,e", "e,p,p"} {
+		for _, m := range []string{"1-3-10-14", "retry-1-3-10-14", "2-3-0-0"} {
+			g.Emit("subsession", m, st)
+		}
+	}
+	for n := 1; n <= 3; n++ {
+		for np := 1; np <= 2; np++ {
+			g.Emit("btcsession", g.Pick([]string{"1-4-100", "2-4-7", "retry-1-4"}), itoa(n), itoa(np))
+		}
 	}
 	// the same delivery twice on one Executor object
 	for _, sp := range []string{"n:p", "n:p;n:p;n:p", "100:p;n:p", "n:e;n:p;41:p;n:p", "40:p;n:p;n:p;0:p;0:p"} {
